@@ -146,6 +146,14 @@ static inline void lib_swap(int k, void *h) {
     else if (k == PM) mantis_parallel_ecb_swap_modes((MantisParallelECB_t *)h);
 }
 
+// is the 128-bit (level 1) / 256-bit (level 2) SIMD code compiled into this build of the library?  (A stubbed-out
+// back end leaves its CTR vtable all-zero.)
+static inline bool lib_compiled_in(int level) {
+    const char *vt = level == 2 ? &_skinny128_ctr_vec256 : &_skinny128_ctr_vec128;
+    if (!vt) return true;                      // symbol renamed: cannot tell, assume it is there
+    return *(void *const *)vt != nullptr;
+}
+
 // which back end serves an initialised object: 0 generic, 1 vec128, 2 vec256, -1 unknown
 static inline int lib_backend(int k, const void *h) {
     const ObjHandleView *v = (const ObjHandleView *)h;
